@@ -302,6 +302,7 @@ func c03Body(e *Env) ([]byte, string, bool) {
 }
 
 func c03HTTP(e *Env) {
+	e.ProbeDecl("http-chunked-body", "http-long-history")
 	e.Probe("http-side")
 	up := &RecHandler{Env: e}
 	srv, err := web.NewHttpServer(logrus.StandardLogger(), up, "in", "in", false, false, true, false, nil, nil)
@@ -312,6 +313,10 @@ func c03HTTP(e *Env) {
 	fab.Handle("in", srv.Router)
 	serve := func(path string, body []byte, enc string) int {
 		r := &HTTPReq{Method: "POST", Host: "in", Path: path, Header: map[string][]string{"Content-Type": {"application/x-protobuf"}}, Body: body}
+		if e.Chance(1, 4) {
+			r.Chunked = true // a client streaming the body: no Content-Length
+			e.Probe("http-chunked-body")
+		}
 		if enc != "" {
 			r.Header.Set("Content-Encoding", enc)
 		}
@@ -320,6 +325,64 @@ func c03HTTP(e *Env) {
 			e.Failf("C03/http-handler-panic", "POST %s (Content-Encoding %q, %d byte body) made the handler panic: %s", path, enc, len(body), fab.Panics[0])
 		}
 		return resp.StatusCode
+	}
+	if e.Chance(1, 12) {
+		// a longer history on one endpoint: many good compressed requests, as many hostile ones, then a
+		// good one again - whatever the handler keeps between requests must survive the error paths
+		e.Probe("http-long-history")
+		cm := &pb.RawMessageV2{Gauges: map[string]*pb.GaugeTagV2{"hist": {TagMap: map[string]*pb.RawGaugeV2{"": {Value: 1}}}}}
+		raw, _ := proto.Marshal(cm)
+		for _, enc := range []string{"deflate", "lz4"} {
+			var good bytes.Buffer
+			if enc == "deflate" {
+				w := zlib.NewWriter(&good)
+				w.Write(raw)
+				w.Close()
+			} else {
+				w := lz4.NewWriter(&good)
+				w.Write(raw)
+				w.Close()
+			}
+			k := e.Range(17, 24)
+			answered := func(body []byte, what string, i int) int {
+				done := make(chan int, 1)
+				go func() {
+					r := &HTTPReq{Method: "POST", Host: "in", Path: "/v2/raw", Header: map[string][]string{"Content-Encoding": {enc}}, Body: body}
+					done <- fab.Serve(r).StatusCode
+				}()
+				e.Settle()
+				select {
+				case st := <-done:
+					return st
+				default:
+					e.Failf("C03/request-never-answered", "%s request %d of a history of %d good and %d hostile %s requests is never answered: the handler is stuck", what, i, k, k, enc)
+					return 0
+				}
+			}
+			for i := 0; i < k; i++ {
+				if st := answered(good.Bytes(), "good", i); st != 202 {
+					e.Failf("C03/valid-request-refused", "history: good %s request %d answered %d", enc, i, st)
+				}
+			}
+			for i := 0; i < k; i++ {
+				junk := make([]byte, 1+e.Draw(40))
+				for j := range junk {
+					junk[j] = byte(e.Draw(256))
+				}
+				if st := answered(junk, "hostile", i); st < 400 {
+					e.Probe("http-junk-accepted")
+				}
+			}
+			m0 := up.NMaps()
+			if st := answered(good.Bytes(), "good (after the hostile ones)", 0); st != 202 || up.NMaps() != m0+1 {
+				e.Failf("C03/canary-lost", "history: a good %s request after %d hostile ones was answered %d and dispatched %d maps", enc, k, st, up.NMaps()-m0)
+			}
+			if len(fab.Panics) > 0 {
+				e.Failf("C03/http-handler-panic", "history (%s): the handler panicked: %s", enc, fab.Panics[0])
+			}
+		}
+		e.Overlap = true
+		return
 	}
 	n := e.Range(1, 10)
 	for i := 0; i < n; i++ {
